@@ -90,6 +90,46 @@ def exhaustive_lines(mmax, acks=(1000, 2 * 10**9)):
     return out
 
 
+KINDS = ["g", "g", "q", "d", "p1", "p7", "p40", "p300", "u3", "u64"]
+
+
+def burst_lines(rng, reps):
+    """Several requests of different kinds (with / without payload, different lengths and options) outstanding together
+    (NSTART >= their number, or smaller so that some queue), all due for retransmission in the same housekeeping tick.
+    Each history is repeated: the order in which one tick visits the pending entries is Go's random map order."""
+    out = []
+    for k in (2, 3, 5, 8):
+        for M in (1, 2, 4):
+            for variant in range(3):
+                A = rng.choice([1000, 10**6, 2 * 10**9])
+                N = k if variant < 2 else max(2, k // 2)
+                kinds = [rng.choice(KINDS) for _ in range(k)]
+                if variant == 0:
+                    # the seeded shape: exactly one request with a payload among requests without
+                    kinds = ["g"] * k
+                    kinds[rng.randrange(k)] = rng.choice(["p7", "p40", "u64"])
+                elif not any(x[0] in "pu" for x in kinds) or all(x[0] in "pu" for x in kinds):
+                    kinds[0], kinds[-1] = "p40", "g"
+                ops = ["cfg %d %d %d" % (A, M, N)]
+                t = 0
+                for i, kd in enumerate(kinds):
+                    ops.append("send %d - %s" % (i, kd))
+                    if variant == 1 and i % 2 == 1:
+                        ops.append("sleep %d" % (A // 10 + 1))
+                        t += A // 10 + 1
+                for c in range(1, M + 2):
+                    ops.append("sleep %d" % (A + 1 if c == 1 else A))   # every request sent so far is due again
+                    ops.append("tick 0")
+                    if c == 1 and variant == 2:
+                        ops.append("ack 0")     # frees a slot: a queued request is sent while the others go on
+                ops.append("tick 0")
+                for i in range(k):
+                    ops.append("pig %d %d" % (i, 10 + i) if i % 2 == 0 else "cancel %d" % i)
+                line = " | ".join(ops)
+                out += [line] * reps
+    return out
+
+
 def gen_scenario(rng):
     A = rng.choice([1, 1000, 10**6, 2 * 10**9])
     M = rng.choice([0, 1, 2, 3, 4, 4])
@@ -112,7 +152,7 @@ def gen_scenario(rng):
                 deadlines.add(t + d)
                 dl = str(d)
                 cls.add("deadline")
-            ops.append("send %d %s" % (nid, dl))
+            ops.append("send %d %s %s" % (nid, dl, rng.choice(KINDS)))
             ids.append(nid)
             nid += 1
             if len(ids) > N and N > 0:
@@ -169,6 +209,20 @@ def run_lines(ctx, art, lines, tag="x"):
     return impl, model, judge
 
 
+REPEAT = 6   # the order in which one tick visits the pending entries is Go's random map order: failures may need retries
+
+
+def fails(ctx, art, line, tag="min"):
+    """Runs the line up to REPEAT times; returns (observation, judge verdict) of the first failing run, else None."""
+    impl, _, judge = run_lines(ctx, art, [line] * REPEAT, tag=tag)
+    if not impl or not judge:
+        return None
+    for o, j in zip(impl, judge):
+        if j.startswith("violates") and "unparsable" not in j:
+            return o, j
+    return None
+
+
 def minimise(ctx, art, line):
     ops = [o.strip() for o in line.split("|")]
     budget = 40
@@ -178,8 +232,7 @@ def minimise(ctx, art, line):
         for i in range(len(ops) - 1, 0, -1):
             cand = ops[:i] + ops[i + 1:]
             budget -= 1
-            impl, _, judge = run_lines(ctx, art, [" | ".join(cand)], tag="min")
-            if judge and judge[0].startswith("violates") and "unparsable" not in judge[0]:
+            if fails(ctx, art, " | ".join(cand)):
                 ops = cand
                 changed = True
                 break
@@ -208,6 +261,8 @@ def explore(ctx, art):
     lines = corpus_lines()
     ex = exhaustive_lines(4 if thorough else 2, acks=(1000, 2 * 10**9, 1) if thorough else (1000, 2 * 10**9))
     lines += ex
+    bursts = burst_lines(random.Random(ctx.seed + 7), 12 if thorough else 4)
+    lines += bursts
     nfixed = len(lines)
     classes = {}
     for _ in range(200000 if thorough else 20000):
@@ -234,18 +289,30 @@ def explore(ctx, art):
             nviol += 1
             if nviol <= 6:
                 ml = minimise(ctx, art, l)
-                mi, _, mj = run_lines(ctx, art, [ml], tag="min")
-                clause = (mj[0].split()[1] if mj and len(mj[0].split()) > 1 else "judge")
+                r = fails(ctx, art, ml)
+                if r is None:      # the minimised history did not reproduce this time: report the history as found
+                    ml, r = l, (o, judge[i])
+                mo, mj = r
+                clause = mj.split()[1] if len(mj.split()) > 1 else "judge"
                 if any(v.signature.endswith(":" + ml) for v in ctx.violations):
                     continue
                 ctx.violations.append(common.Violation(
-                    clause, "C06:%s:%s" % (clause, ml), "%s: observed `%s`: %s" % (ml, mi[0] if mi else "?", mj[0] if mj else judge[i]),
-                    {"input": [ml], "observed": mi[0] if mi else o, "judge": mj[0] if mj else judge[i], "found_as": l}))
+                    clause, "C06:%s:%s" % (clause, ml), "%s: observed `%s`: %s" % (ml, mo, mj),
+                    {"input": [ml], "observed": mo, "judge": mj, "found_as": l,
+                     "note": "schedule dependent histories are retried up to %d times on replay" % REPEAT}))
         if retransmitted(o):
             distinct.add(l)
+        if i >= nfixed - len(bursts) and i < nfixed:
+            # how many requests one tick retransmitted together
+            for seg in o.split(" | "):
+                n = seg.split()[0].count(",") + 1 if seg.startswith("tx=") and not seg.startswith("tx=- ") else 0
+                if n >= 2:
+                    ctx.count("retransmitted-in-one-tick>=2")
+                    break
     for c, n in sorted(classes.items()):
         ctx.count(c, n)
     ctx.count("exhaustive-loss-patterns", len(ex))
+    ctx.count("mixed-kinds-same-tick-bursts", len(bursts))
     ctx.cov["distinct_nontrivial"] = len(distinct)
     ctx.cov["traces_validated_against_impl"] = len(lines)
     ctx.cov["exhaustive"] = True
@@ -253,7 +320,9 @@ def explore(ctx, art):
                        "retransmitted (its earlier copy treated as lost); distinct by scenario text. Exhaustive part: MAX_RETRANSMIT 0..%d x "
                        "first copy that gets through (or none) x 8 peer reactions (piggybacked, ACK then CON/NON response, ACK only, reset, "
                        "response without ACK, reply lost then repeated, silence) x 4 tick placements (just after, exactly at then after, just "
-                       "before then 1 ns after via a housekeeping clock 2 ns ahead, late) x ACK_TIMEOUT %s ns."
+                       "before then 1 ns after via a housekeeping clock 2 ns ahead, late) x ACK_TIMEOUT %s ns. Bursts: 2..8 requests of mixed kinds (GET, GET with queries, DELETE, POST/PUT with 1..300-byte payloads "
+                       "and extra options) outstanding together and due in the same tick, each history repeated (random map order); every "
+                       "retransmitted datagram is compared byte for byte with the first transmission of its request."
                        % (4 if thorough else 2, "1000 / 2e9 / 1" if thorough else "1000 / 2e9"))
     for l, o in list(zip(lines, impl))[:2] + list(zip(lines, impl))[nfixed:nfixed + 3]:
         ctx.sample({"input": l, "implementation": o})
@@ -278,12 +347,14 @@ def replay(ctx, rep):
     if not lines:
         print("replay file names no failing input:", rep.get("no_longer_checks"))
         return 1
-    impl, model, judge = run_lines(ctx, art, lines, tag="replay")
     bad = 0
-    for l, o, m, j in zip(lines, impl or [], model or [], judge or []):
-        print("%s\n  implementation: %s\n  model:          %s\n  judge:          %s" % (l, o, m, j))
-        if j != "ok":
-            bad += 1
+    for l in lines:
+        impl, model, judge = run_lines(ctx, art, [l] * REPEAT, tag="replay")
+        k = next((i for i, j in enumerate(judge or []) if j != "ok"), 0)
+        if impl and model and judge:
+            print("%s\n  implementation: %s\n  model:          %s\n  judge:          %s" % (l, impl[k], model[k], judge[k]))
+            if judge[k] != "ok":
+                bad += 1
     if bad:
         print("VIOLATION property=C06 replay=(replayed) still reproduces")
     return 1 if bad else 0
